@@ -32,7 +32,7 @@ FUNCTIONS = [
     'pymap.user:Passwords.check_password',
 ]
 ASSUMPTIONS = [
-    '<= 2 stored users; one or two consecutive attempts',
+    '<= 2 stored users; up to 2 (quick) / 3 (thorough) attempts, each on the same or on a new connection to the same server',
     'password_prep (saslprep) = identity, password hash = cleartext comparison, secrets.compare_digest = equality '
     '(saslprep, hashing and the SASL mechanisms\' own message parsing are third-party code outside the claim)',
 ]
@@ -103,19 +103,25 @@ def scenario(g, sim, users, attempts, tls, local, starttls, check):
     for name, pw, admin in users:
         login.users_dict[name] = g['UserMetadata'](cfg, name, password=pw,
                                                    roles=frozenset(['admin']) if admin else frozenset())
-    st = g['ConnectionState'](login, cfg)
-    g['connection_exit'].set(AsyncExitStack())
-    g['socket_info'].set(SocketInfoLocal(_conn.Transport([], local=local)))
-    drive(st.do_greeting())
-    if starttls:
-        try:
-            drive(st.do_command(g['StartTLSCommand'](b's')))
-        except g['ResponseError']:
-            pass
+    def connect():
+        st = g['ConnectionState'](login, cfg)
+        g['connection_exit'].set(AsyncExitStack())
+        g['socket_info'].set(SocketInfoLocal(_conn.Transport([], local=local)))
+        drive(st.do_greeting())
+        if starttls:
+            try:
+                drive(st.do_command(g['StartTLSCommand'](b's')))
+            except g['ResponseError']:
+                pass
+        return st
+    st = connect()
 
     def eq(a, b):
         return a == b
-    for k, (kind, authcid, secret, authzid) in enumerate(attempts):
+    for k, att in enumerate(attempts):
+        kind, authcid, secret, authzid = att[:4]
+        if len(att) > 4 and att[4]:
+            st = connect()          # a new connection to the same server (same Login object)
         before = st._session
         disabled = b'LOGINDISABLED' in st.capability
         cond = None
@@ -229,13 +235,14 @@ def _harness(nusers, nattempts):
         for k in range(nattempts):
             kind = ['login', 'auth', 'none'][eng.choose('kind%d' % k, 3)]
             cid, sec = s('cid%d' % k), s('sec%d' % k)
+            newconn = k > 0 and eng.flip('newconn%d' % k)
             if kind == 'login':
-                attempts.append((kind, SymBytes(cid.items, 'bytes'), SymBytes(sec.items, 'bytes'), None))
+                attempts.append((kind, SymBytes(cid.items, 'bytes'), SymBytes(sec.items, 'bytes'), None, newconn))
             elif kind == 'auth':
                 zid = s('zid%d' % k) if eng.flip('haszid%d' % k) else ''
-                attempts.append((kind, cid, sec, zid))
+                attempts.append((kind, cid, sec, zid, newconn))
             else:
-                attempts.append((kind, None, None, None))
+                attempts.append((kind, None, None, None, newconn))
         obligations = []
 
         def ev(x, m):
@@ -246,7 +253,7 @@ def _harness(nusers, nattempts):
         def wit(m):
             return {'users': [[ev(n, m), ev(p, m), a] for n, p, a in users], 'tls': tls, 'local': local,
                     'starttls': starttls,
-                    'attempts': [[k, ev(c, m), ev(se, m), ev(z, m)] for k, c, se, z in attempts]}
+                    'attempts': [[k, ev(c, m), ev(se, m), ev(z, m), nc] for k, c, se, z, nc in attempts]}
         err = scenario(_g, _g['_sim'], users, attempts, tls, local, starttls,
                        lambda c, msg='': obligations.append(B(c)))
         if err is not None:
@@ -257,7 +264,7 @@ def _harness(nusers, nattempts):
 
 def harnesses(tier):
     from pysymex.runner import Harness
-    cfgs = [(1, 1), (2, 1)] if tier == 'quick' else [(1, 1), (2, 1), (2, 2)]
+    cfgs = [(1, 1), (2, 1), (2, 2)] if tier == 'quick' else [(1, 1), (2, 1), (2, 2), (2, 3)]
     return [Harness('attempts[users=%d,n=%d]' % (u, n), _harness(u, n),
                     {'stored_users': u, 'attempts': n, 'strings': 'symbolic (1 character each, equality only)'},
                     replay='scenario', task_budget=60) for u, n in cfgs]
@@ -279,11 +286,11 @@ def replay(harness, w):
         if not c:
             bad.append(msg or 'obligation failed')
     attempts = []
-    for kind, c, s, z in w['attempts']:
+    for kind, c, s, z, nc in w['attempts']:
         if kind == 'login':
-            attempts.append((kind, c.encode(), s.encode(), None))
+            attempts.append((kind, c.encode(), s.encode(), None, nc))
         else:
-            attempts.append((kind, c, s, z))
+            attempts.append((kind, c, s, z, nc))
     err = scenario(g, _sim, [tuple(u) for u in w['users']], attempts, w['tls'], w['local'], w['starttls'], check)
     if err:
         bad.append(err)
